@@ -31,8 +31,8 @@ ASSUMPTIONS = [
     'callbacks registered with seterrcall are global, not scoped by '
     'errstate (the statement scopes the reactions profile only)',
 ]
-ANCHORS = ['ErrorProfile.test', 'ErrorProfile._handle_error', 'seterr', 'geterr', 'seterrcall', 'geterrcall', 'errcheck', 'errstate']
-REQUIRED = ['loud_reactions_checked', 'errstate_prebuilt_blocks',
+ANCHORS = ['ErrorProfile.register', 'ErrorProfile.unregister', 'ErrorProfile.test', 'ErrorProfile._handle_error', 'seterr', 'geterr', 'seterrcall', 'geterrcall', 'errcheck', 'errstate']
+REQUIRED = ['own_profile_tests', 'own_profile_refusals', 'loud_reactions_checked', 'errstate_prebuilt_blocks',
             'errstate_decorated_then_profile_changed', 'two_kind_reactions_checked', 'refused_calls_naming_all', 'steps_checked', 'errstate_decorated_calls',
             'errstate_exception_exits', 'refused_calls',
             'reaction_raise', 'reaction_ignore', 'reaction_warn',
@@ -747,6 +747,211 @@ def run_loud_reaction(ctx, r, index):
 
 
 # ------------------------------------------------------------------- driver
+def run_own_profile(ctx, r, index):
+    """A profile of one's own: `ErrorProfile()` with kinds registered by the
+    caller (name, message, default reaction, test, callback, exception
+    type), driven by random steps and compared with a reference model after
+    each: the configured reaction of every registered kind is what `test`
+    does, kinds are looked at in name order, the first `raise` ends the
+    test and its exception is what comes back, an unknown kind / reaction /
+    a second registration under the same name is refused and changes
+    nothing, an unregistered kind is gone."""
+    import contextlib
+    import io as _io
+    import warnings
+    from biom.err import ErrorProfile
+    prof = ErrorProfile()
+    model = {}          # name -> dict(state, pred, msg, cb, exc)
+    names = ['k_%s' % c for c in 'abcde']
+    REACT = ['raise', 'ignore', 'call', 'print', 'warn']
+    called = []
+
+    class MyErr(Exception):
+        pass
+    steps = []
+    desc = {'own_profile_steps': steps}
+
+    def bad(what, msg):
+        raise Violation('C20/own-profile/' + what, '%s; case=%r' % (msg, desc))
+
+    def mk_pred(mod, rem):
+        return lambda item: item % mod == rem
+    for _ in range(r.randint(6, 14)):
+        op = r.choice(['register', 'register', 'state', 'state', 'test',
+                       'test', 'test', 'setcall', 'unregister',
+                       'register-bad', 'state-bad'])
+        if op == 'register':
+            nm = r.choice(names)
+            st = r.choice(REACT)
+            mod, rem = r.randint(1, 3), 0
+            msg = 'message of %s #%d' % (nm, len(steps))
+            exc = r.choice([Exception, MyErr, ValueError])
+            withcb = r.random() < .5
+            tag = '%s-cb%d' % (nm, len(steps))
+            cb = (lambda item, tag=tag: called.append((tag, item))) \
+                if withcb else None
+            steps.append(('register', nm, st, mod, exc.__name__, withcb))
+            try:
+                prof.register(nm, msg, st, mk_pred(mod, rem), callback=cb,
+                              exception=exc)
+            except KeyError:
+                if nm not in model:
+                    bad('register-refused', 'a new kind %r was refused' % nm)
+                ctx.count('own_profile_refusals')
+            else:
+                if nm in model:
+                    bad('registered-twice', '%r was registered a second '
+                        'time' % nm)
+                model[nm] = {'state': st, 'mod': mod, 'msg': msg,
+                             'cb': tag if withcb else None, 'exc': exc}
+        elif op == 'register-bad':
+            nm = 'fresh_%d' % len(steps)
+            steps.append(('register', nm, 'explode'))
+            try:
+                prof.register(nm, 'm', r.choice(['explode', 'Raise', '', None]),
+                              lambda x: True)
+            except KeyError:
+                ctx.count('own_profile_refusals')
+            else:
+                bad('unknown-reaction-registered', nm)
+            if nm in prof:
+                bad('refused-registration-left-a-kind', nm)
+        elif op == 'state':
+            req = {}
+            for nm in r.sample(names, r.randint(1, 2)):
+                req[nm] = r.choice(REACT)
+            if r.random() < .2:
+                req = {'all': r.choice(REACT)}
+            steps.append(('state', dict(req)))
+            unknown = [k for k in req if k != 'all' and k not in model]
+            try:
+                prof.state = req
+            except KeyError:
+                if not unknown:
+                    bad('state-refused', 'request %r over kinds %r' %
+                        (req, sorted(model)))
+                ctx.count('own_profile_refusals')
+            else:
+                if unknown:
+                    bad('unknown-kind-accepted', 'request %r over kinds %r' %
+                        (req, sorted(model)))
+                if 'all' in req:
+                    for nm in model:
+                        model[nm]['state'] = req['all']
+                else:
+                    for nm, st in req.items():
+                        model[nm]['state'] = st
+        elif op == 'state-bad':
+            if not model:
+                continue
+            nm = r.choice(sorted(model))
+            other = [k for k in sorted(model) if k != nm]
+            req = {nm: 'explode'}
+            if other:
+                req[other[0]] = r.choice(REACT)
+            steps.append(('state', dict(req)))
+            try:
+                prof.state = req
+            except KeyError:
+                ctx.count('own_profile_refusals')
+            else:
+                bad('unknown-reaction-accepted', repr(req))
+        elif op == 'setcall':
+            nm = r.choice(names)
+            tag = '%s-set%d' % (nm, len(steps))
+            steps.append(('setcall', nm))
+            try:
+                prof.setcall(nm, lambda item, tag=tag: called.append((tag,
+                                                                      item)))
+            except KeyError:
+                if nm in model:
+                    bad('setcall-refused', nm)
+                ctx.count('own_profile_refusals')
+            else:
+                if nm not in model:
+                    bad('setcall-unknown-kind-accepted', nm)
+                model[nm]['cb'] = tag
+        elif op == 'unregister':
+            nm = r.choice(names)
+            steps.append(('unregister', nm))
+            try:
+                got = prof.unregister(nm)
+            except KeyError:
+                if nm in model:
+                    bad('unregister-refused', nm)
+                ctx.count('own_profile_refusals')
+            else:
+                if nm not in model:
+                    bad('unregister-unknown-kind-accepted', nm)
+                if got[2] != model[nm]['state']:
+                    bad('unregister-state', '%r vs %r' % (got[2],
+                                                          model[nm]['state']))
+                del model[nm]
+                if nm in prof:
+                    bad('unregistered-kind-still-there', nm)
+        else:
+            item = r.randint(0, 6)
+            kinds = sorted(model)
+            if kinds and r.random() < .4:
+                kinds = sorted(r.sample(kinds, r.randint(1, len(kinds))))
+                args = list(kinds)
+                r.shuffle(args)
+            else:
+                args = []
+            steps.append(('test', item, list(args)))
+            exp_w, exp_p, exp_c, exp_ret = [], [], [], None
+            for nm in kinds:
+                m = model[nm]
+                if item % m['mod'] != 0 or m['state'] == 'ignore':
+                    continue
+                if m['state'] == 'raise':
+                    exp_ret = (m['exc'], m['msg'])
+                    break
+                if m['state'] == 'warn':
+                    exp_w.append(m['msg'])
+                elif m['state'] == 'print':
+                    exp_p.append(m['msg'])
+                elif m['cb'] is not None:
+                    exp_c.append((m['cb'], item))
+            del called[:]
+            out = _io.StringIO()
+            with warnings.catch_warnings(record=True) as wlog, \
+                    contextlib.redirect_stdout(out):
+                warnings.simplefilter('always')
+                import biom.err as _e
+                old, _e.stdout = _e.stdout, out
+                try:
+                    ret = prof.test(item, *args)
+                finally:
+                    _e.stdout = old
+            got_w = [str(w.message) for w in wlog]
+            got_p = [ln for ln in out.getvalue().split('\n') if ln]
+            if exp_ret is None:
+                ok_ret = not isinstance(ret, Exception)
+            else:
+                ok_ret = type(ret) is exp_ret[0] and str(ret) == exp_ret[1]
+            if got_w != exp_w or got_p != exp_p or called != exp_c or \
+                    not ok_ret:
+                bad('reaction', 'test(%r, %r) over %r: warnings %r (expected '
+                    '%r), printed %r (%r), callbacks %r (%r), returned %r '
+                    '(expected %r)' % (
+                        item, args, {k: (v['state'], v['mod'])
+                                     for k, v in model.items()}, got_w,
+                        exp_w, got_p, exp_p, list(called), exp_c, ret,
+                        exp_ret))
+            ctx.count('own_profile_tests')
+        # the profile after every step
+        st = dict(prof.state)
+        if st != {k: v['state'] for k, v in model.items()}:
+            bad('state', 'profile %r, model %r' % (st, {
+                k: v['state'] for k, v in model.items()}))
+        for nm in names:
+            if (nm in prof) != (nm in model):
+                bad('membership', nm)
+    ctx.count('own_profile_programs')
+    ctx.case(desc, len(steps) >= 4)
+
+
 def calibrate_messages(ctx):
     """The text of each kind's message is not part of the property; what
     is, is that 'warn' and 'print' emit the message of that kind.  The
@@ -804,7 +1009,9 @@ def run_case(ctx, index):
     else:
         r = ctx.rng(index)
         k = index - p['nexh'] - p['nrand']
-        if k % 8 == 5:
+        if k % 8 == 3:
+            run_own_profile(ctx, r, k // 8)
+        elif k % 8 == 5:
             run_two_kinds(ctx, r, k // 8)
         elif k % 16 == 7:
             run_loud_reaction(ctx, r, k // 16)
